@@ -26,6 +26,11 @@ type plain struct {
 	Meta       blob.Ref // single-entry meta blob written by its receive
 	exLo, exHi int      // content range excluded from the leak windows
 	crafted    bool
+	// extra: a further meta-shaped user blob (forged-size variants).  Its own ciphertext and meta blob take
+	// part only in the targeted crafted substitutions, not in the flip/truncate/extend/all-pairs enumeration
+	// (they have the same shape as the first crafted blob's), and it is verified after crafted swaps only.
+	extra  bool
+	forged string // what the crafted line claims (evidence)
 }
 
 func mkPlain(hash, kind string, data []byte) plain {
@@ -72,8 +77,14 @@ func universeA(rng *rand.Rand, large bool) []plain {
 // craftedPlain is a plaintext blob whose CONTENT has the shape of a meta blob: it names the
 // plaintext ref of victim and the ciphertext ref of donor.  It is an ordinary user blob.
 func craftedPlain(victim, donor plain, sizeDelta int) plain {
-	head := fmt.Sprintf("#camlistore/encmeta=2\n%s/%d/", victim.Ref, len(victim.Data)+sizeDelta)
-	enc := donor.Enc.String()
+	return craftedLine(victim, donor.Enc, len(victim.Data)+sizeDelta)
+}
+
+// craftedLine is the general form: the line claims that victim has the given size and is held by
+// the ciphertext blob encRef (which need not exist).
+func craftedLine(victim plain, encRef blob.Ref, size int) plain {
+	head := fmt.Sprintf("#camlistore/encmeta=2\n%s/%d/", victim.Ref, size)
+	enc := encRef.String()
 	p := mkPlain("sha224", "meta-shaped", []byte(head+enc+"\n"))
 	p.exLo, p.exHi = len(head), len(head)+len(enc)
 	p.crafted = true
@@ -310,13 +321,21 @@ func head(b []byte) string {
 	return string(b)
 }
 
+// everyIdx: every plaintext; the extra crafted user blobs only after a crafted substitution.
+func (t *tstore) everyIdx(m *mutant) []int {
+	idx := make([]int, 0, len(t.plains))
+	for i := range t.plains {
+		if t.plains[i].extra && m.Class != "swap-crafted" {
+			continue
+		}
+		idx = append(idx, i)
+	}
+	return idx
+}
+
 func (t *tstore) checkIdx(m *mutant) []int {
 	if t.checkAll {
-		idx := make([]int, len(t.plains))
-		for i := range idx {
-			idx[i] = i
-		}
-		return idx
+		return t.everyIdx(m)
 	}
 	set := map[int]bool{}
 	if m.affected >= 0 {
@@ -375,7 +394,7 @@ func (t *tstore) apply(m *mutant, orig []byte) {
 	} else if err != nil {
 		t.r.Note("tamper_outcomes", m.Target+"/"+cls+"/creation-refused")
 	} else {
-		t.verify(s, m, allIdx(len(t.plains)))
+		t.verify(s, m, t.everyIdx(m))
 		t.r.Note("tamper_outcomes", m.Target+"/"+cls+"/creation-succeeded")
 	}
 	t.in.meta.clearOver(m.ref)
@@ -508,7 +527,25 @@ func (t *tstore) run() {
 			}
 		}
 	}
-	dataRefs, metaRefs := t.lowerOrder()
+	dataAll, metaAll := t.lowerOrder()
+	// the blobs of the extra crafted plaintexts (last in both lists) stay out of the general enumeration
+	extraRef := map[blob.Ref]bool{}
+	for _, p := range t.plains {
+		if p.extra {
+			extraRef[p.Enc], extraRef[p.Meta] = true, true
+		}
+	}
+	var dataRefs, metaRefs []blob.Ref
+	for _, ref := range dataAll {
+		if !extraRef[ref] {
+			dataRefs = append(dataRefs, ref)
+		}
+	}
+	for _, ref := range metaAll {
+		if !extraRef[ref] {
+			metaRefs = append(metaRefs, ref)
+		}
+	}
 	for _, l := range []*lowStore{in.blobs, in.meta} {
 		l.mu.Lock()
 		l.readonly = true
@@ -586,7 +623,10 @@ func (t *tstore) run() {
 		}
 		for _, v := range t.plains {
 			if bytes.Contains(p.Data, []byte(v.Ref.String()+"/")) && v.Meta.Valid() && in.meta.raw(v.Meta) != nil {
-				t.swap(in.meta, "meta", idxOf(metaRefs, v.Meta), v.Meta, in.blobs, "data", idxOf(dataRefs, t.plains[i].Enc), t.plains[i].Enc, -1, true)
+				if p.forged != "" {
+					t.r.Note("crafted_meta_lines", p.forged)
+				}
+				t.swap(in.meta, "meta", idxOf(metaAll, v.Meta), v.Meta, in.blobs, "data", idxOf(dataAll, t.plains[i].Enc), t.plains[i].Enc, -1, true)
 			}
 		}
 	}
@@ -641,12 +681,28 @@ func tamperA(r *ev.Run, root string, n int, large bool) {
 	if large {
 		vi, di = 0, 1
 	}
-	t.plains = append(t.plains, craftedPlain(t.plains[vi], t.plains[di], 0))
+	n0 := len(t.plains)
+	add := func(p plain, forged string, extra bool) {
+		p.forged, p.extra = forged, extra
+		t.plains = append(t.plains, p)
+	}
+	add(craftedPlain(t.plains[vi], t.plains[di], 0), "true-size/other-ciphertext", false)
+	absent := sto.RefOf("sha224", randBytes(rng, 32)) // names no stored ciphertext
 	if !large {
 		// a second one that names the victim's own ciphertext but a wrong size
-		t.plains = append(t.plains, craftedPlain(t.plains[7], t.plains[7], 1))
+		add(craftedPlain(t.plains[7], t.plains[7], 1), "size+1/own-ciphertext", false)
+		// further forged lines: the size field is what a fetch learns FIRST about a blob (before any
+		// ciphertext is read), so its edge values get their own substitutions: 0, and the true size
+		add(craftedLine(t.plains[7], t.plains[7].Enc, 0), "size-0/own-ciphertext", true)
+		add(craftedLine(t.plains[5], t.plains[6].Enc, 0), "size-0/other-ciphertext", true)
+		add(craftedLine(t.plains[8], absent, 0), "size-0/absent-ciphertext", true)
+		add(craftedLine(t.plains[6], t.plains[6].Enc, len(t.plains[6].Data)), "true-size/own-ciphertext", true)
+		add(craftedLine(t.plains[1], absent, len(t.plains[1].Data)), "true-size/absent-ciphertext", true)
+	} else {
+		add(craftedLine(t.plains[3], t.plains[3].Enc, 0), "size-0/own-ciphertext", true)
+		add(craftedLine(t.plains[0], t.plains[1].Enc, 0), "size-0/other-ciphertext", true)
 	}
-	if !t.receiveAll(len(t.plains) - 1 - map[bool]int{true: 0, false: 1}[large]) {
+	if !t.receiveAll(n0) {
 		return
 	}
 	in.leakCheckAll(t.sc, t.plains, "after all receives")
